@@ -82,7 +82,11 @@ def run_shaped(case):
             e = 0
         except Exception as ex:  # noqa
             e = err(ex)
-        tr.append([e, snap_shaped(owner)])
+        try:
+            tr.append([e, snap_shaped(owner)])
+        except Exception as ex:  # noqa  (the attribute can no longer be observed: reported by the oracle)
+            tr.append([e, {"snaperr": f"{type(ex).__name__}: {ex}"[:200]}])
+            break
     return tr
 
 
@@ -139,7 +143,11 @@ def run_record(case):
             e = 0
         except Exception as ex:  # noqa
             e = err(ex)
-        tr.append([e, out, snap_rec(owner)])
+        try:
+            tr.append([e, out, snap_rec(owner)])
+        except Exception as ex:  # noqa  (the record can no longer be observed: reported by the oracle)
+            tr.append([e, out, {"snaperr": f"{type(ex).__name__}: {ex}"[:200]}])
+            break
     return tr
 
 
